@@ -110,6 +110,22 @@ var fedShapes = []fedShape{
 		want:    func(i int) string { return `{"__typename":"Epsilon","sku":"sku-of-u` + sfx(i) + `","upc":"u` + sfx(i) + `","variant":null}` },
 		lookups: func(i int) string { return "EpsilonByUpc:u" + sfx(i) },
 	},
+	{ // 15 batch entity with @requires, first key: the required field comes from this very representation
+		rep: func(i int) map[string]any {
+			return map[string]any{"__typename": "Zeta", "id": "z" + sfx(i), "size": json.Number(strconv.Itoa(30 + i))}
+		},
+		want:    func(i int) string { return `{"__typename":"Zeta","id":"z` + sfx(i) + `","name":"name-of-z` + sfx(i) + `","size":` + strconv.Itoa(30+i) + `}` },
+		multi:   "ZetaByIDs",
+		batchID: func(i int) string { return "z" + sfx(i) },
+	},
+	{ // 16 the same entity by its second key
+		rep: func(i int) map[string]any {
+			return map[string]any{"__typename": "Zeta", "name": "zn" + sfx(i), "size": json.Number(strconv.Itoa(70 + i))}
+		},
+		want:    func(i int) string { return `{"__typename":"Zeta","id":"id-of-zn` + sfx(i) + `","name":"zn` + sfx(i) + `","size":` + strconv.Itoa(70+i) + `}` },
+		multi:   "ZetaByNames",
+		batchID: func(i int) string { return "zn" + sfx(i) },
+	},
 	{ // 10 nested key is not an object
 		rep:  func(i int) map[string]any { return map[string]any{"__typename": "Gamma", "owner": "notamap"} },
 		want: func(i int) string { return "null" },
@@ -139,6 +155,10 @@ func Harness_C20_entities() {
 		if zzsym.Param("requires", 0) == 1 {
 			// the shapes around @requires only: a plain entity, the batch type, the requiring entity, an unknown type
 			shapes[i] = []int{0, 2, 5, 6}[shapes[i]%4]
+			if probeConfigName == "fed_single" {
+				// under the default options: the batch entity with two keys and @requires, next to a plain one
+				shapes[i] = []int{0, len(fedShapes) - 3, len(fedShapes) - 2, 6}[shapes[i]%4]
+			}
 		}
 		reps[i] = fedShapes[shapes[i]].rep(i)
 	}
